@@ -14,7 +14,7 @@ use super::params_sexp;
 use super::schema_gen::GenSchema;
 
 /// A vertex handle: the dataset-wide vertex id.
-#[derive(Debug, Clone, Copy, PartialEq, Eq, PartialOrd, Ord, Hash)]
+#[derive(Debug, Clone, Copy, PartialEq, Eq, PartialOrd, Ord, Hash, serde::Serialize, serde::Deserialize)]
 pub struct Vtx(pub u32);
 
 /// Vertex types that expose a stable numeric id (needed by the logging wrapper).
